@@ -162,7 +162,13 @@ CloseS ==
                            res |-> Ok(0), g |-> g, closed |-> closed, sreg |-> 0, ev |-> <<>>])
   /\ UNCHANGED <<g, closed, fin>>
 
-Finish == ~fin /\ Len(hist) > 0 /\ fin' = TRUE /\ UNCHANGED <<g, closed, sreg, hist>>
+(* Every history ends with Runtime.Close: whatever happened before - failed, trapped or exited instantiations included -
+   every instance the runtime still has is closed by it (an instance that exited keeps its code), nothing stays registered,
+   and a later call of any function fails with an exit error.  Also: a per-call context that is cancelled AFTER the call
+   has returned changes nothing (the driver runs every history once more with close-on-context-done and such contexts). *)
+Finish == /\ ~fin /\ Len(hist) > 0 /\ fin' = TRUE /\ sreg' = 0
+          /\ closed' = [i \in Insts |-> IF closed[i] = 0 /\ i # "S" THEN 1 ELSE closed[i]]
+          /\ UNCHANGED <<g, hist>>
 Next == (\E t \in Tops : Call(t)) \/ (\E k \in Starts : InstS(k)) \/ (Starts # {} /\ CloseS) \/ Finish
 Spec == Init /\ [][Next]_vars
 
